@@ -14,7 +14,7 @@ META = {
     'bounds': {'quick': 'n in 2..10, record values in [-1000,1000], dt symbolic in [1e-4,10] (identities, linearity, '
                         'closed forms); calc_peak on a free series x in R^n, n<=12, alpha in {-2.5,0.3}; pga/pgv/pgd shown to be calc_peak of the values/velocity/displacement terms (identical terms, n<=10, dt in {0.01,0.5})',
                'thorough': 'n in 2..24 for the identities; peaks n<=10'},
-    'outside': ['rounding on the record', 'integer-dtype records (the real-valued kind only)', 'n beyond the bound'],
+    'outside': ['rounding on the record', 'n beyond the bound'],
     'assumptions': ["reading of 'exact for constant and linearly varying acceleration': velocity is exact for both, "
                     "displacement is exact for constant acceleration (the trapezoid of a quadratic velocity is not "
                     "exact by the property's own increment definition)"],
@@ -33,8 +33,8 @@ def _vd(ctx, a, dt, trap, level):
     return asig.velocity, asig.displacement
 
 
-def increments(ctx, n, trap=True, level='array'):
-    a = ctx.arr('a', n)
+def increments(ctx, n, trap=True, level='array', kind='f'):
+    a = ctx.iarr('a', n, -1000, 1000) if kind == 'i' else ctx.arr('a', n)
     dt = ctx.real('dt', 1e-4, 10.0)
     v, d = _vd(ctx, a, dt, trap, level)
     ctx.observe('v', v)
@@ -132,6 +132,10 @@ def obligations(tier, seed):
         for trap in (True, False):
             for level in ('array', 'object') + (('alias',) if n == 3 else ()):
                 yield Ob('increments', {'n': n, 'trap': trap, 'level': level})
+    for n in (3, 5):
+        for trap in (True, False):
+            for level in ('array', 'object'):
+                yield Ob('increments', {'n': n, 'trap': trap, 'level': level, 'kind': 'i'})    # integer-dtype record
     for n in ([2, 4, 8] if q else [2, 5, 12, 20]):
         for trap in (True, False):
             yield Ob('linearity', {'n': n, 'trap': trap})
